@@ -67,6 +67,16 @@ CHECKS = {
          "simx: at each of the three points where the client waits the broker either behaves or sends one of 12 other things (Secure, Close, wrong-stage frames, heartbeat, channel-1 method, header, body, EOF, malformed bytes, silence with a configured timeout), plus mechanism/locale lists, too small frame_max, auth/information options and transport faults injected at any point; every delivery cut/schedule with at most 2 (thorough 3) deviations. Oracle: the exact error or success, methods written strictly in reaction (StartOk content, TuneOk, Open vhost, CloseOk on a server close), server_properties, thread and transport released. seqx: 228k (mechanism list, locale list, auth, locale, information) combinations through make_start_ok with token-equality expectations.",
          "Where the statement leaves the error open (malformed bytes / silence while waiting for the reply to StartOk) either reading is accepted. Silence without a configured timeout is outside the statement and not generated. Virtual time replaces the poll timeout (DESIGN.md 3.3).",
          "DESIGN.md §6 C16", "seqx+simx"),
+ "C17": ("model_checking",
+         "complete enumeration of timing patterns on a virtual-time grid over the real heartbeat code in a live connection (controlled scheduler, virtual clock, timer stand-in)",
+         "Negotiated h in {1,2} s (thorough +60 s) and h=0; virtual time to 6h; every pattern of up to 2 (thorough 3) server transmissions (whole heartbeat or a single byte) on a grid of h/2 plus 3 ms, 2h-6 ms, 2h-5 ms, 2h+1 ms, a server that keeps talking, client publishes at chosen times: 1034 (thorough more) timing patterns, each executed on the real I/O thread; time advances only at quiescence. Oracle (constraints): client writes at least every h while alive; MissedServerHeartbeats iff inbound silence reaches 2h, within [2h-5 ms, 2h+10 ms]; any inbound byte counts; with h=0 no heartbeat frame and silence is never fatal.",
+         "The mio-extras timer wheel (100 ms ticks, wake-up thread) is replaced by an exact virtual-time stand-in and Instant by a virtual clock (DESIGN.md 3.3); real-time jitter is out of scope.",
+         "DESIGN.md §6 C17", "simx"),
+ "C18": ("model_checking",
+         "stateless deviation-bounded exhaustive exploration of publishers against a stalling transport on the real threads",
+         "Two publisher threads and the connection thread (opening/closing a channel meanwhile) over a transport that stalls after a chosen number of bytes and is re-opened in grants; five tunings (bound, high, low) incl. bound 0 and high 0; every decision sequence with at most 1-2 (thorough 2-3) deviations. Oracle: buffered output at every poll gate within high + channels*(bound+1)*frame + 64, no deadlock (every blocked publisher resumes), every message on the wire exactly once in per-channel order.",
+         "Bounds: 3 channels, 3 publishes each; one I/O-loop iteration is atomic with respect to client sends (a publisher refilling its queue during a drain is not modelled).",
+         "DESIGN.md §6 C18", "simx"),
  "C19": ("exploration",
          "complete cartesian enumeration of URLs assembled from component alphabets through the real URL decoding, oracle = the components (never re-parsed)",
          "1.68 million URLs (thorough: more hosts and all ordered triples of valid parameters) assembled from scheme x userinfo x host x port x path x query alphabets; decoded host, port, credentials, vhost, heartbeat, channel_max, connection_timeout, auth mechanism or the specific error compared with the tuple the URL was built from; Connection::open on every accepted amqp:// shape must answer InsecureUrl.",
